@@ -1,20 +1,32 @@
 #!/bin/sh
-# usage: tools/mut.sh <patch-file> [--tests] [--tier T] ID...
-# Applies a patch to /repo, optionally runs the repository's test-suite, runs the
-# named checks (each under a hard timeout), and ALWAYS reverts /repo afterwards.
+# usage: tools/mut.sh <patch-file> [--tests] [--in-repo] [--tier T] ID...
+#
+# Applies a patch to a PRIVATE COPY of /repo's working tree (default; safe to run
+# concurrently, /repo is never touched) or, with --in-repo, to /repo itself (always
+# reverted on exit). Optionally runs the repository's test-suite on the patched tree,
+# then runs the named checks, each under a hard timeout.
 patch=$(readlink -f "$1"); shift
-tests=0; tier=quick
-while :; do case "$1" in --tests) tests=1; shift;; --tier) tier=$2; shift 2;; *) break;; esac; done
-cd /repo || exit 2
-if [ -n "$(git status --porcelain --untracked-files=no)" ]; then echo "/repo not clean" >&2; exit 2; fi
-trap 'cd /repo && git checkout -- . ' EXIT INT TERM
+tests=0; tier=quick; inrepo=0
+while :; do case "$1" in --tests) tests=1; shift;; --in-repo) inrepo=1; shift;; --tier) tier=$2; shift 2;; *) break;; esac; done
+if [ $inrepo = 1 ]; then
+  tree=/repo
+  cd /repo || exit 2
+  if [ -n "$(git status --porcelain --untracked-files=no)" ]; then echo "/repo not clean" >&2; exit 2; fi
+  trap 'cd /repo && git checkout -- . ' EXIT INT TERM
+else
+  tree=$(mktemp -d /tmp/mutrepo.XXXXXX)
+  trap 'rm -rf "$tree"' EXIT INT TERM
+  cp -a /repo/. "$tree"/
+  cd "$tree" || exit 2
+fi
 git apply "$patch" || { echo "patch does not apply" >&2; exit 2; }
 if [ $tests = 1 ]; then
-  timeout 600 /venv/bin/python -m pytest -q -p no:cacheprovider -x 2>&1 | tail -3
+  (cd "$tree" && timeout 600 /venv/bin/python -m pytest -q -p no:cacheprovider -x 2>&1 | tail -3)
 fi
 cd /verif
 for id in "$@"; do
-  timeout ${MUT_TIMEOUT:-900} ./check "$id" --tier "$tier" --no-evidence > /tmp/mut.$$.out 2>&1; rc=$?
-  echo "== $id exit=$rc"; grep -E '^(VIOLATION|KNOWN-FINDING|HARNESS|  sig)' /tmp/mut.$$.out | head -8
-  rm -f /tmp/mut.$$.out
+  out=$(mktemp /tmp/mut.out.XXXXXX)
+  VERIF_REPO="$tree" timeout ${MUT_TIMEOUT:-900} ./check "$id" --tier "$tier" --no-evidence > "$out" 2>&1; rc=$?
+  echo "== $id exit=$rc"; grep -E '^(VIOLATION|KNOWN-FINDING|HARNESS|  sig)' "$out" | head -${MUT_LINES:-8}
+  rm -f "$out"
 done
